@@ -14,7 +14,7 @@ pub fn run(tier: Tier) -> i32 {
     let lens: &[usize] = tier.pick(&[2, 3, 4, 5, 10, 25], &[2, 3, 4, 5, 6, 7, 8, 10, 15, 20, 25, 30, 35, 40]);
     let betas = [0.0, 0.1, 0.3, 0.5];
     let alphas = [0.0, 0.3, 0.6];
-    rep.set_rule("SCOPE: cepstrum lattice of C06 (scaled so (1+beta) x shape <= 2 Np) x beta {0,.1,.3,.5} x alpha {0,.3,.6} x vector lengths, plus tilt-dominated spectra (|c1| in {1.2,1.5,1.8}, |c2| in {.2,.4}, all sign pairs) for which the emphasis can lower the energy; second pulse of a stationary 2-frame run through the real Vocoder; oracle: log|H_beta|-log|H_0|-beta*sum_{m>=2} c_m cos(m w~) constant over frequency within 0.01 Np, impulse-response energy within 1%, beta=0 and length 2 bit-identical to no postfilter; plus histories: the last frame after a linear glide between two cepstra over 8, 300 or 2500 (thorough: 12000) frames obeys the same two laws; distinct = (length, alpha, beta, cepstrum); non-trivial = beta>0 and length>2");
+    rep.set_rule("SCOPE: cepstrum lattice of C06 (scaled so (1+beta) x shape <= 2 Np) x beta {0,.1,.3,.5} x alpha {0,.3,.6} x vector lengths, plus tilt-dominated spectra (|c1| in {1.2,1.5,1.8}, |c2| in {.2,.4}, all sign pairs) for which the emphasis can lower the energy; second pulse of a stationary 2-frame run through the real Vocoder; oracle: log|H_beta|-log|H_0|-beta*sum_{m>=2} c_m cos(m w~) constant over frequency within 0.01 Np, impulse-response energy within 1%, beta=0 and length 2 bit-identical to no postfilter; plus unvoiced frames: the noise-excited output equals the noise convolved with the pulse response measured on voiced frames; plus histories: the last frame after a linear glide between two cepstra over 8, 300 or 2500 (thorough: 12000) frames obeys the same two laws; distinct = (length, alpha, beta, cepstrum); non-trivial = beta>0 and length>2");
     rep.assume("lattice cepstra only; energy measured on the truncated pulse response (tail < 1e-7 of peak)");
     let mut cases: Vec<(usize, f64, f64, Vec<f64>)> = Vec::new();
     for &len in lens {
@@ -223,6 +223,66 @@ pub fn run(tier: Tier) -> i32 {
             rep.violation("energy-after-glide", format!("after a glide of {} frames the impulse-response energy differs by {:.2}% between beta {} and beta 0 (len {}, alpha {})", n, erel * 100.0, beta, len, alpha), rp);
         }
     });
+    // the postfilter acts on the spectrum, whatever excites the filter: on unvoiced (noise-excited) frames the output must
+    // be the noise convolved with the very pulse response measured on voiced frames with the same beta
+    let mut noise_cases = 0u64;
+    for &len in &[3usize, 6, 25] {
+        for &alpha in &[0.0, 0.42] {
+            for &beta in &[0.0, 0.3] {
+                let pats = patterns(len);
+                let mut c = pats[(len + 3) % pats.len()].clone();
+                let mx = shape_max(&c, alpha);
+                for m in 1..len {
+                    c[m] *= 1.0 / mx;
+                }
+                c[0] = 0.2;
+                let rate = 16000usize;
+                let t0 = rate / 20;
+                let cc = c.clone();
+                let r = catch(move || {
+                    let run = |lf0: f64, spec: &[f64], bt: f64| -> Vec<Vec<f64>> {
+                        let mut v = jbonsai::vocoder::Vocoder::new(spec.len(), 0, 0, false, rate, alpha, bt, 1.0, t0);
+                        (0..3)
+                            .map(|_| {
+                                let mut buf = vec![0.0; t0];
+                                v.synthesize(lf0, spec, &[], &mut buf);
+                                buf
+                            })
+                            .collect()
+                    };
+                    let voiced = run(20f64.ln(), &cc, beta);
+                    let unvoiced = run(-1e10, &cc, beta);
+                    let noise = run(-1e10, &vec![0.0; cc.len()], 0.0);
+                    (voiced, unvoiced, noise)
+                });
+                rep.eval(1);
+                noise_cases += 1;
+                let rp = json!({"vector_length": len, "alpha": alpha, "beta": beta, "cepstrum": c, "measure": "third unvoiced frame vs noise convolved with the voiced pulse response"});
+                match r {
+                    Err(p) => rep.violation(format!("panic@{}", site_of(&p)), p, rp),
+                    Ok((voiced, unvoiced, noise)) => {
+                        let s = (t0 as f64).sqrt();
+                        let h: Vec<f64> = voiced[1][..t0 - 2].iter().map(|x| x / s).collect();
+                        let e: Vec<f64> = noise.iter().flatten().cloned().collect();
+                        let y = &unvoiced[2];
+                        let (mut num, mut den) = (0.0f64, 0.0f64);
+                        for n in 0..t0 {
+                            let g = 2 * t0 + n;
+                            let pred: f64 = h.iter().enumerate().map(|(k, hk)| hk * e[g - k]).sum();
+                            num += (y[n] - pred) * (y[n] - pred);
+                            den += pred * pred;
+                        }
+                        rep.cmp(1);
+                        let rel = (num / den.max(1e-300)).sqrt();
+                        if !(rel <= 1e-3) {
+                            rep.violation("unvoiced-filter", format!("unvoiced frames are not filtered with the spectrum measured on voiced frames (beta {}, len {}, alpha {}): relative deviation {:.4}", beta, len, alpha, rel), rp);
+                        }
+                    }
+                }
+            }
+        }
+    }
+    rep.note("noise_excited_cases", json!(noise_cases));
     rep.note("glides", json!({"cases": glides.len(), "frames": tier.pick(&[8usize, 300, 2500][..], &[8usize, 300, 2500, 12000][..]), "worst_energy_rel": *glide_worst.lock().unwrap()}));
     let w = *worst.lock().unwrap();
     rep.nontrivial.store(nontriv.load(std::sync::atomic::Ordering::Relaxed), std::sync::atomic::Ordering::Relaxed);
